@@ -299,6 +299,12 @@ Definition step (v : variant) (s : st) (e : event) : option (st * list output) :
       end
   end.
 
+(* conn.read's treatment of a ReadFcall error: a net.Error reporting Timeout() or Temporary() is retried
+   (the reader calls ReadFcall again: NO transition of this system); every other error - a net.Error
+   reporting neither, or any error that is not a net.Error - closes the conn: that is [EConnErr]. *)
+Definition read_error_retried (is_net_error timeout temporary : bool) : bool :=
+  is_net_error && (timeout || temporary).
+
 (* run an event list; None as soon as an event is not enabled *)
 Fixpoint run (v : variant) (s : st) (evs : list event) : option (st * list output) :=
   match evs with
